@@ -42,6 +42,7 @@ fixed("U1", "C07", "120fb94", "after an INSERT of key K was rolled back, K could
 fixed("U1b", "C07", "120fb94", "a key left behind by a failed multi-row INSERT and inserted again was missed by index lookups (k = K returns nothing)", "O-res", "findings/U1b-key-of-failed-insert-reinserted-is-missed-by-index-lookup.json")
 fixed("D27c", "C15", "066429a", "a DROP TABLE of a table on which another open transaction has a pending DROP was silently skipped and reported as done (the catalog row already carries a delete mark): no conflict was raised, and the second DROP of the same transaction succeeded again", "O-res", "findings/D27c-drop-of-a-table-with-a-pending-drop-is-silently-skipped.json")
 fixed("D27d", "C15", "066429a", "DROP TABLE after a rolled-back DROP of the same table (here: the session that had dropped it was lost in a reopen) reported success and did nothing; CREATE TABLE of the name then failed with 'already exists'", "O-res", "findings/D27d-drop-after-a-rolled-back-drop-is-skipped.json")
+fixed("D10", "C07", "345c84d", "two open transactions inserted the same PRIMARY KEY / UNIQUE value and both committed (the UNIQUE check treated the other transaction's invisible index entry as a free key)", "O-res", "findings/D10-two-open-transactions-insert-the-same-unique-key-and-both-commit.json")
 open_("U2c", "C07", "the catalog's name index keeps one entry per name: after DROP TABLE t (committed) and CREATE TABLE t, a transaction whose snapshot still sees the old t gets 'table not found'", "O-res", "table_name_reuse_while_session_open", "findings/U2c-reusing-a-dropped-table-name-hides-the-old-table-from-older-snapshots.json")
 open_("U2", "C07", "deleting a row and re-inserting its UNIQUE key hides the old row from transactions whose snapshot predates the delete (index entry overwritten)", "O-res", "unique_key_reuse_while_session_open", "findings/U2-reinserted-unique-key-hides-old-row-from-older-snapshot.json")
 open_("U3", "C07", "a transaction that deletes a row and re-inserts its UNIQUE key and then fails leaves the index without the original row", "O-res", "unique_key_reuse_while_session_open", "findings/U3-delete-and-reinsert-of-key-in-rolled-back-txn-breaks-index.json")
